@@ -194,7 +194,7 @@ def self_test():
 
 LAWS = [
     Law("noll_index", index_run, replay=index_replay, shards={"quick": 16, "thorough": 16}),
-    given_law("modes", mode_cases(), mode_body, {"quick": 250, "thorough": 1500}),
+    given_law("modes", mode_cases(), mode_body, {"quick": 250, "thorough": 3750}, shards={"quick": 3, "thorough": 16}),
     plain_law("gram_ladder", gram_cases, gram_body, shards={"quick": 2, "thorough": 2}),
     plain_law("gradients", gamma_cases, gamma_body, shards={"quick": 5, "thorough": 7}),
 ]
